@@ -1281,12 +1281,13 @@ class ValueObject(Value):
 
     def __repr__(self):
         fn = self.resolveItem("_str_")
-        if fn:
+        if fn is not None and fn.isFunc():
             args_ = Args(None)
             args_.addArgs(fn.getArgNames())
             args_.setArgs([None], [self])
             try:
-                return fn.execute(args_).value
+                result = fn.execute(args_, None, None)
+                return result.value if result.isString() else str(result)
             except CklRuntimeError as e:
                 e.stacktrace.append("_str_")
                 raise
